@@ -227,6 +227,30 @@ Theorem C16_hash_fit_refuted :
 Proof. exact hash_fit_refuted. Qed.
 Print Assumptions C16_hash_fit_refuted.
 
+(** The clause of C16 this refutes, as the run-time monitor evaluates it on a history ([fit], m_fit):
+    every pass the scenario does not disturb, that ends without error, over an unpaused, valid and
+    admissible package leaves the stored template equal to the render of the CURRENT spec.
+    F-C16c: the model (= the implementation: [agree]) violates it on [revert_steps], all other
+    clauses hold there, and the history shows the pattern [reverted]: a failed pass wrote the
+    ObjectDeployment without moving unpackedHash, then the spec was edited to the spec behind the
+    stored hash. *)
+Theorem C16_fit_refuted :
+  agree wit_case_revert = true /\ verdict_all (monitor wit_case_revert) = true /\
+  fit wit_case_revert = false /\ reverted wit_case_revert = true.
+Proof. exact wit_case_revert_judged. Qed.
+Print Assumptions C16_fit_refuted.
+
+(** m_fit holds on every history of valid packages without uniqueInScope constraint whose constraints
+    are met - with pull failures, API faults (before / after the effect), third-party writes, pausing
+    and arbitrary edits - in which that pattern does not occur; for either List. *)
+Theorem C16_fit_partial :
+  forall sc scoped t sp ps steps,
+    valid_only steps = true ->
+    reverted (sc, t, sp, ps, steps, model_obs_gen true scoped t sp ps steps) = false ->
+    fit (sc, t, sp, ps, steps, model_obs_gen true scoped t sp ps steps) = true.
+Proof. exact fit_partial. Qed.
+Print Assumptions C16_fit_partial.
+
 (** ** uniqueInScope.  The other (Cluster)Packages are part of the world ([w_peers]); [listed true ps]
     is the number of (Cluster)Packages carrying the manifest's package label in the scope of the
     Package at hand (itself included if it carries the label).  If that number is at least two the
